@@ -61,6 +61,8 @@ def model_summary(model, limit=40):
 
 def run_variant(src, hier, contract, method, variant, both=False, repo_qual=None):
     """-> VariantResult."""
+    if getattr(variant, 'custom', None) is not None:
+        return variant.custom(src, hier, variant)
     t0 = time.time()
     mod = contract.mod
     qual = repo_qual or ('%s:%s.%s' % (mod, contract.cls, method) if contract.cls else '%s:%s' % (mod, method))
